@@ -19,3 +19,30 @@ package config
 //@ loop 1 invariant total >= 0 && div > 0 && forall(k, 0, len(input), input[k].Weight >= div) && names != nil
 //@ ensures [total-is-a-size] result1 >= 0
 //@ ensures [single-scenario-has-multiplicity-1] imp(len(input) == 1, result1 == 1)
+
+// ---------------------------------------------------------------- reading a scenario description: a configuration or an error, never neither
+
+//@ func DecodeMap
+//@ props C13 C08
+//@ ensures [config-or-error] iff(result1 == nil, result0 != nil)
+//@ ensures [bad-yaml-is-an-error] imp(result_of(yaml.Unmarshal, 0) != nil, result1 != nil)
+//@ ensures [invalid-description-is-an-error] imp(calls(config.DecodeAndValidate) == 1 && result_of(config.DecodeAndValidate, 0) != nil, result1 != nil)
+
+//@ func ParseAmmoConfig
+//@ props C13 C08
+//@ ensures [config-or-error] iff(result1 == nil, result0 != nil)
+//@ ensures [read-failure-is-an-error] imp(result_of(io.ReadAll, 1) != nil, result1 != nil && calls(DecodeMap) == 0)
+//@ at call DecodeMap assert [the-bytes-read] arg(bytes) == result_of(io.ReadAll, 0)
+
+//@ func ConvertHCLToAmmo
+//@ props C13 C08
+//@ ensures [config-or-error] iff(result1 == nil, result0 != nil)
+
+// An empty file name, a file that cannot be opened, an unknown extension and a description that does not parse are errors.
+//@ func ReadAmmoConfig
+//@ props C13 C08
+//@ ensures [config-or-error] imp(err == nil, ammoCfg != nil)
+//@ ensures [a-file-is-required] imp(fileName == "", err != nil && calls(fs.Open) == 0)
+//@ ensures [open-failure-is-an-error] imp(fileName != "" && result_of(fs.Open, 1) != nil, err != nil && ammoCfg == nil)
+//@ ensures [the-file-is-closed-once-opened] imp(fileName != "" && result_of(fs.Open, 1) == nil, calls(file.Close) == 1)
+//@ at call fs.Open assert arg(name) == fileName0
